@@ -312,6 +312,7 @@ func (w *World) EnumPaths(fn *ssa.Function, o EnumOpts) EnumResult {
 		blocks  []int
 		phi     map[*ssa.Phi]ssa.Value
 		onPath  map[int]bool
+		mem     map[*ssa.Alloc]ssa.Value
 	}
 	var walk func(b *ssa.BasicBlock, prev *ssa.BasicBlock, f frame)
 	finish := func(f frame, end string, rets []ssa.Value) {
@@ -320,11 +321,12 @@ func (w *World) EnumPaths(fn *ssa.Function, o EnumOpts) EnumResult {
 			return
 		}
 		p := &Path{Lits: f.lits, Effects: f.effects, Blocks: f.blocks, End: end, phi: f.phi, RetVals: rets}
-		w.phiEnv = f.phi
-		for _, r := range rets {
+		w.phiEnv, w.memEnv = f.phi, f.mem
+		for i, r := range rets {
 			p.Ret = append(p.Ret, w.AP(r))
+			p.RetVals[i] = w.Resolve(r)
 		}
-		w.phiEnv = nil
+		w.phiEnv, w.memEnv = nil, nil
 		res.Paths = append(res.Paths, p)
 	}
 	walk = func(b *ssa.BasicBlock, prev *ssa.BasicBlock, f frame) {
@@ -346,9 +348,13 @@ func (w *World) EnumPaths(fn *ssa.Function, o EnumOpts) EnumResult {
 			blocks:  append(append([]int(nil), f.blocks...), b.Index),
 			phi:     map[*ssa.Phi]ssa.Value{},
 			onPath:  map[int]bool{},
+			mem:     map[*ssa.Alloc]ssa.Value{},
 		}
 		for k, v := range f.phi {
 			nf.phi[k] = v
+		}
+		for k, v := range f.mem {
+			nf.mem[k] = v
 		}
 		for k := range f.onPath {
 			nf.onPath[k] = true
@@ -380,11 +386,14 @@ func (w *World) EnumPaths(fn *ssa.Function, o EnumOpts) EnumResult {
 			}
 		}
 		w.phiEnv = nf.phi
-		defer func() { w.phiEnv = nil }()
+		defer func() { w.phiEnv, w.memEnv = nil, nil }()
 		for _, in := range b.Instrs {
-			w.phiEnv = nf.phi
+			w.phiEnv, w.memEnv = nf.phi, nf.mem
 			switch x := in.(type) {
 			case *ssa.Store:
+				if a, ok := x.Addr.(*ssa.Alloc); ok {
+					nf.mem[a] = w.Resolve(x.Val)
+				}
 				nf.effects = append(nf.effects, Effect{Kind: "store", Target: w.apAddr(x.Addr), Val: w.AP(x.Val), In: in})
 			case *ssa.MapUpdate:
 				nf.effects = append(nf.effects, Effect{Kind: "mapupdate", Target: w.AP(x.Map) + "[" + w.AP(x.Key) + "]", Val: w.AP(x.Value), In: in})
@@ -424,16 +433,16 @@ func (w *World) EnumPaths(fn *ssa.Function, o EnumOpts) EnumResult {
 					nf.effects = append(nf.effects, Effect{Kind: kind, Target: tgt, Val: strings.Join(args, ","), In: in, Callee: c.StaticCallee()})
 				}
 			case *ssa.Return:
-				w.phiEnv = nil
-				finish(nf, "return", x.Results)
+				w.phiEnv, w.memEnv = nil, nil
+				finish(nf, "return", append([]ssa.Value(nil), x.Results...))
 				return
 			case *ssa.Panic:
-				w.phiEnv = nil
+				w.phiEnv, w.memEnv = nil, nil
 				finish(nf, "panic", nil)
 				return
 			case *ssa.If:
-				w.phiEnv = nil
-				w.branch(x, nf.phi, func(succ int, lit *Lit) {
+				w.phiEnv, w.memEnv = nil, nil
+				w.branch(x, nf.phi, nf.mem, func(succ int, lit *Lit) {
 					g := nf
 					if lit != nil {
 						// prune contradictions
@@ -451,18 +460,18 @@ func (w *World) EnumPaths(fn *ssa.Function, o EnumOpts) EnumResult {
 				})
 				return
 			case *ssa.Jump:
-				w.phiEnv = nil
+				w.phiEnv, w.memEnv = nil, nil
 				walk(b.Succs[0], b, nf)
 				return
 			}
 		}
-		w.phiEnv = nil
+		w.phiEnv, w.memEnv = nil, nil
 		// block without terminator successor (e.g. ends in a no-return call)
 		if len(b.Succs) == 0 {
 			finish(nf, "exit", nil)
 		}
 	}
-	walk(start, nil, frame{phi: map[*ssa.Phi]ssa.Value{}, onPath: map[int]bool{}})
+	walk(start, nil, frame{phi: map[*ssa.Phi]ssa.Value{}, onPath: map[int]bool{}, mem: map[*ssa.Alloc]ssa.Value{}})
 	return res
 }
 
@@ -483,10 +492,10 @@ func storedBetween(effects []Effect, l Lit, a Atom) bool {
 
 // branch evaluates the condition of an If along the current path and calls take for each
 // feasible successor with the literal that holds on it (nil when the condition is constant).
-func (w *World) branch(x *ssa.If, phi map[*ssa.Phi]ssa.Value, take func(succ int, lit *Lit)) {
-	w.phiEnv = phi
+func (w *World) branch(x *ssa.If, phi map[*ssa.Phi]ssa.Value, mem map[*ssa.Alloc]ssa.Value, take func(succ int, lit *Lit)) {
+	w.phiEnv, w.memEnv = phi, mem
 	op, l, r, neg, konst := w.condAtom(x.Cond, 0)
-	w.phiEnv = nil
+	w.phiEnv, w.memEnv = nil, nil
 	if konst != nil {
 		v := *konst
 		if neg {
